@@ -208,6 +208,13 @@ pub fn plan(prop: &str, tier: &str) -> (PropMeta, Vec<Job>) {
             j.prelude = vec![Op::Send(2), Op::Advance(EXP / 2 + 1)];
         }
         pj.extend(aged);
+        // another one: a closed first segment and data in the segment after it (what a pass leaves behind when
+        // it removes the first segment only)
+        let mut rolled = make_jobs(prop, &with_expiry, &|c| alpha(c), depth - 1, 1, cap);
+        for j in rolled.iter_mut() {
+            j.prelude = vec![Op::Send(5), Op::Send(1)];
+        }
+        pj.extend(rolled);
     }
     for j in pj.iter_mut() {
         j.tcp = tcp;
@@ -221,7 +228,7 @@ pub fn plan(prop: &str, tier: &str) -> (PropMeta, Vec<Job>) {
         id,
         level: "model_checking",
         rule: format!(
-            "every history of exactly {depth} operations over the alphabet (for the first configuration: {sample_alpha:?}) is executed against the real server from a fresh copy of a journalled template directory, for each of {} configurations (C14: the expiry configurations a second time, one step shorter, from a state in which the open segment already holds a batch half an expiry old); the oracle runs after every step; a state is distinct by (configuration, digest of the data directory, in-memory partition/segment facts)",
+            "every history of exactly {depth} operations over the alphabet (for the first configuration: {sample_alpha:?}) is executed against the real server from a fresh copy of a journalled template directory, for each of {} configurations (C14: the expiry configurations two more times, one step shorter, from a state in which the open segment already holds a batch half an expiry old and from a state with a closed first segment and data in the next one); the oracle runs after every step; a state is distinct by (configuration, digest of the data directory, in-memory partition/segment facts)",
             cfgs.len()
         ),
         bounds: json!({
